@@ -190,7 +190,7 @@ func c08Emit(e *emitter, rp c08Replay) {
 	}
 	rp.Want = sliceOf(flat, rp.Start, rp.Count)
 	kindN := map[string]int{"LimitPlan": 0, "FinalLimitPlan": 1, "select": 2, "ordered": 3, "aggregated": 4, "delete": 5,
-		"aggregated-all": 6, "select-range": 7, "select-keys": 8, "delete-keys": 9}[rp.Kind]
+		"aggregated-all": 6, "select-range": 7, "select-keys": 8, "delete-keys": 9, "select-alias": 10, "aggregated-ordered": 11}[rp.Kind]
 	// offsets and counts beyond the end of the result are handed to the twin as len+1: the
 	// slice is the same one (Properties/C08.v: slice_saturates), and a nat numeral near 2^63
 	// cannot be written down
@@ -369,6 +369,13 @@ func runStmtCase(e *emitter, kind string, n, B, s, c int) {
 		base = "select key, count(1) where key ^= 'k' group by key"
 	case "delete":
 		base = "select * where key ^= 'k'"
+	case "select-alias":
+		// explicit fields, an alias used in WHERE (the scan's filter fills the field cache that
+		// the projection reads): rows are compared by content, so a column of another row shows
+		base = "select key, int(value) as v, v + 1 as w where v >= 0 & key ^= 'k'"
+	case "aggregated-ordered":
+		// ORDER BY above the aggregate: the limit must NOT be pushed into the aggregate node
+		base = "select key, count(1) as c, sum(int(value)) as sm where key ^= 'k' group by key order by key desc"
 	case "aggregated-all":
 		// one row for all pairs: the limit is pushed down into AggregatePlan
 		base = "select count(1), sum(int(value)) where key ^= 'k'"
@@ -611,7 +618,7 @@ func runC08(c *runCtx) error {
 		}
 	}
 	// part B: statements
-	kinds := []string{"select", "ordered", "aggregated", "delete", "aggregated-all", "select-range", "select-keys", "delete-keys"}
+	kinds := []string{"select", "ordered", "aggregated", "delete", "aggregated-all", "select-range", "select-keys", "delete-keys", "select-alias", "aggregated-ordered"}
 	for _, kind := range kinds {
 		for _, B := range []int{1, 2, 3} {
 			ns := []int{0, 1, B, B + 1, 2 * B, 3*B + 1}
